@@ -169,6 +169,15 @@ def build_weights(w):
         wire = (list(w[1]), [Fraction(d) for d in w[2]])
         if w[0] == "tensor": return t, ("WTensor", wire)
         return PatternedTensor(t), ("WPatterned", wire)
+    if w[0] in ("tensor64", "patterned64"):
+        # a caller-supplied float64 tensor whose entries are not representable in float32 (the default dtype):
+        # "apply returns the weight" must hold for the weight as given, not for a rounded copy
+        data = [Fraction(d) + Fraction(1, 2 ** 40) for d in w[2]]
+        t = torch.tensor([float(d) for d in data], dtype=torch.float64).reshape(w[1])
+        assert [Fraction(x) for x in t.reshape(-1).tolist()] == data
+        wire = (list(w[1]), data)
+        if w[0] == "tensor64": return t, ("WTensor", wire)
+        return PatternedTensor(t), ("WPatterned", wire)
     if w[0] == "eye":
         from fggs.semirings import RealSemiring
         p = PatternedTensor.eye(w[1], RealSemiring())
@@ -471,7 +480,7 @@ def gen_fac_cases(rng, tier):
         rest = [(a, b) for a, b in pairs if max(a + b + [0]) > 2 and a != b]
         pairs = small + [(a, a) for a in shapes if max(a + [0]) > 2] + rng.sample(rest, 400)
     for k, (ds, ws) in enumerate(pairs):
-        for form in ("nested", "tensor", "patterned"):
+        for form in ("nested", "tensor", "patterned") + (("tensor64", "patterned64") if ds == ws or k % 7 == 0 else ()):
             flav = [(k + j) % 5 for j in range(len(ds))]
             domspecs = [gen_domspec(n, f) for n, f in zip(ds, flav)]
             cases.append(("grid", fac_case(domspecs, weights_spec(form, ws), rng)))
@@ -795,7 +804,7 @@ def run(tier, seed):
             samples.append(dict(kind=kind, spec=items[-1][1]))
     cov = dict(evaluations=total, distinct_nontrivial=distinct,
                rule="dom: every value list of length <= 3 over {0, 1, 'a', None, True} (duplicates and the cross-type duplicate 1/True included) as list, tuple and generator; random domains of size 0..8 over 20 mixed hashable values given as list/tuple/generator/iterator/dict (20% with duplicates); RangeDomain sizes 0,1,2,3,5,inf; each with contains/numberize on members and non-members, denumberize on -n-2..n+1, ==/!= against 5-8 other domains. "
-                    "fac: (domain sizes, weight shape) pairs up to rank 3 over sizes 0..3 (quick: all pairs with sizes <= 2, every matching pair, 400 sampled others; thorough: all 7225) in the three forms nested list / Tensor / PatternedTensor, plus eye/full patterned tensors, infinite domains and domains built from generators, malformed nested lists (ragged, mixed depth, empty rows); apply on every complete value tuple, prefixes, over-long and unknown values; == against 6-9 other factors. "
+                    "fac: (domain sizes, weight shape) pairs up to rank 3 over sizes 0..3 (quick: all pairs with sizes <= 2, every matching pair, 400 sampled others; thorough: all 7225) in the forms nested list / Tensor / PatternedTensor (default dtype) and, for every matching pair and a seventh of the others, float64 Tensor / PatternedTensor with entries not representable in float32, plus eye/full patterned tensors, infinite domains and domains built from generators, malformed nested lists (ragged, mixed depth, empty rows); apply on every complete value tuple, prefixes, over-long and unknown values; == against 6-9 other factors. "
                     "bind: every pairing of an edge label (terminal/nonterminal, type over {A,B}, arity 0..3) with a factor (domains over {D2, D3, R2}, arity 0..3) under pre-states (label unregistered / registered / clashing / nonterminal clash / already bound; node labels mapped to equal / different / no domain), all matching pairings under every pre-state, equal-by-content vs different domain in every position, new_finite_domain / new_finite_factor grids, random histories; FactorGraph and FGG alternate; shape() on label lists, tuples, node lists, EdgeLabel, Edge. "
                     "non-trivial = domain of size >= 2 (or range size >= 2), factor of rank >= 1, history with >= 3 calls including a factor binding; distinct by spec",
                samples=samples, phase_seconds=phase, generator_histogram=hist, verdict_histogram=verdicts, kernel_reevaluated=nk_total,
